@@ -37,6 +37,11 @@ SHAPES = {
     "(e+f),y": {"b": "ind_dp_y", "w": None, "l": None},
     "[e+f]": {"b": "lng_dp", "w": "lng_abs", "l": None},
     "#-e": {"b": "imm", "w": "imm", "l": None},
+    # no operand at all after a mnemonic the scanner did not classify as operand-less (`lda` alone; `inx.b`: a width suffix sizes an operand, an
+    # implied instruction has none), followed by the end of the input, a closing brace or the next statement
+    "<nothing>": NOTHING,
+    "<nothing> }": NOTHING,
+    "<nothing> nop": NOTHING,
 }
 
 
